@@ -116,7 +116,12 @@ func GenPipe(r *rand.Rand, o PipeOpts, useArg bool) *Pipe {
 		case "compact":
 			cur = ref.Method(cur, "compact", ref.Clo([]string{a, b}, ref.Bin("=", ref.Bin("%", wrap(id(a)), ref.Int(3)), ref.Bin("%", id(b), ref.Int(3)))))
 		case "cross":
-			cur = ref.Method(cur, "cross", ref.ListN(ref.Int(1), ref.Int(2)), ref.Clo([]string{a, b}, ref.Bin("*", wrap(id(a)), id(b))))
+			if r.IntN(2) == 0 {
+				// the pipeline so far is the second list: cross runs through it again for every item of the first
+				cur = ref.Method(ref.ListN(ref.Int(1), ref.Int(2), ref.Int(3)), "cross", cur, ref.Clo([]string{b, a}, ref.Bin("+", ref.Bin("*", id(b), ref.Int(1000)), wrap(id(a)))))
+			} else {
+				cur = ref.Method(cur, "cross", ref.ListN(ref.Int(1), ref.Int(2)), ref.Clo([]string{a, b}, ref.Bin("*", wrap(id(a)), id(b))))
+			}
 		case "merge":
 			// the other operand: stages that call their closure on the stack they are handed (number, iir, combine)
 			// as well as map (own stack per worker); sometimes long enough that both producers overlap
